@@ -167,8 +167,14 @@ def make_deck(ch, dims, skew, by_rpp, arr_mode):
     d.add_cell(lat)
     # filler universes (asymmetric about the element)
     d.add_surface(41, 'px', [0.3]); d.add_surface(42, 'py', [0.2])
-    d.add_cell(HCell(31, -41, mat=1, rho='-2.7', u=2)); d.add_cell(HCell(32, 41, mat=2, rho='-7.8', u=2))
-    d.add_cell(HCell(33, -42, mat=3, rho='-1.0', u=3)); d.add_cell(HCell(34, 42, mat=1, rho='-2.7', u=3))
+    # the universes vary in all three directions (a spurious displacement along any axis must be visible)
+    d.add_surface(43, 'pz', [0.4]); d.add_surface(44, 'pz', [-0.6])
+    d.add_cell(HCell(31, -41, mat=1, rho='-2.7', u=2))
+    d.add_cell(HCell(32, ('*', 41, -43), mat=2, rho='-7.8', u=2))
+    d.add_cell(HCell(35, ('*', 41, 43), mat=3, rho='-1.0', u=2))
+    d.add_cell(HCell(33, -42, mat=3, rho='-1.0', u=3))
+    d.add_cell(HCell(34, ('*', 42, 44), mat=1, rho='-2.7', u=3))
+    d.add_cell(HCell(36, ('*', 42, -44), mat=2, rho='-7.8', u=3))
     d.mats = dict(MATS)
     kwo = ch.choose('keyword-order', [None, ['imp', 'fill', 'lat', 'u', 'trcl'], ['trcl', 'lat', 'imp', 'u', 'fill'],
                                       ['fill', 'u', 'trcl', 'imp', 'lat']])
